@@ -67,3 +67,18 @@ Fixpoint k7_free_vec (e : expr) : bool :=
       negb (is_setop op) && ((k7_free_vec a && scalar_like b) || (scalar_like a && k7_free_vec b))
   | _ => false
   end.
+
+(** ** The syntactic complement of known finding K3
+
+    [k3_free e]: a vector-typed expression without any of the mechanisms through which the analyser's "can have label"
+    is known not to mean "must have label" (K3: includeLabel of on()/group_x() labels -> no vector/vector operation;
+    functions re-guaranteeing selector labels, label_replace/label_join -> no call; count_values).  On this fragment
+    the analyser's own belief is sound: Proofs/C12_k3.v [analyser_can_have_must]. *)
+Fixpoint k3_free (e : expr) : bool :=
+  match e with
+  | ESel _ => true
+  | EMatrix e | ESubq e | EParen e | EUnary _ e => k3_free e
+  | EAgg op _ _ _ e => match op with ACountValues | AOther => false | _ => k3_free e end
+  | EBin op _ None a b => negb (is_setop op) && ((k3_free a && scalar_like b) || (scalar_like a && k3_free b))
+  | _ => false
+  end.
